@@ -430,10 +430,10 @@ class Circuit:
                 ll.reader = node_map[inn]  # connect to existing fork
                 ll.reader_pin = 0
             ll.reader.ins[ll.reader_pin] = ll
+        dangling = []
         for l, ll in zip(impl_out_lines, node_out_lines):  # connect outputs
             if ll is None:
-                if l.driver in node_map:  # only clean up what was copied in, never ports or other nodes of the main circuit.
-                    self.remove_dangling_nodes(node_map[l.driver], within=set(node_map.values()))
+                if l.driver in node_map: dangling.append(node_map[l.driver])
                 continue
             if len(l.reader.outs) > 0:  # output is also read by impl. circuit, connect to fork.
                 ll.driver = node_map[l.reader]
@@ -442,6 +442,8 @@ class Circuit:
                 ll.driver = node_map[l.driver]
                 ll.driver_pin = l.driver_pin
             ll.driver.outs[ll.driver_pin] = ll
+        for n in dangling:  # clean up only after all outputs are connected and only what was copied in, never other nodes of the main circuit.
+            self.remove_dangling_nodes(n, within=set(node_map.values()))
 
     def resolve_tlib_cells(self, tlib):
         """Substitute all technology library cells with kyupy native simulation primitives.
